@@ -131,5 +131,30 @@ CHECKS["C18"] = dict(level="model_checking", design_ref="DESIGN.md 5/C18",
          "to _eigh is the Fock matrix of the current density by definition (spin resolved for uhf) and the returned orbitals are "
          "orthonormal, for all Hamiltonians and initial orbitals. Convergence / fixed point / agreement with an independent SCF: not claimed.",
     note=_WF_NOTE + " eigh is a contract stub (LAPACK not verified); n_opt_iter = 2.")
-for k in ("C01","C02","C03","C04","C05","C07","C09","C11","C13","C14","C15","C17","C18","C19","C20"): NA.pop(k, None)
+CHECKS["C08"] = dict(level="model_checking", design_ref="DESIGN.md 5/C08",
+    technique="symbolic execution of the traced sampler entry points with uninterpreted named calls (congruence) and the real trial overlap; z3 term equality of the hook accumulator with 0",
+    text="Each sampler entry point is traced for block structures up to 2x2x2 with the guarded hook accumulating |cached - "
+         "calc_overlap(walkers)|^2 at every propagate() entry. calc_overlap is interpreted for real; propagate, QR, local SR, the energy "
+         "routines and optimize are uninterpreted named calls (fresh outputs), except the hook slice and the overlaps propagate itself "
+         "returns. The accumulator is identically 0 for ARBITRARY incoming overlaps, walkers, weights: no history of blocks, QR, SR or "
+         "driver iterations can make a step read a stale overlap. A missing or misplaced refresh leaves a non-zero term and is replayed.",
+    note="Trusted: z3, JAX tracing, congruence abstraction (sound for equalities), the observation-only hook. 2 walkers, (2;1,1;1), <= 2x2x2 blocks; propagate_free and CPMC outside.")
+CHECKS["C10"] = dict(level="model_checking", design_ref="DESIGN.md 5/C10",
+    technique="symbolic execution of the traced jaxpr + z3 polynomial identities (fast updates, HS constants); graded series for the one-body half step",
+    text="(1) for uhf_cpmc and ghf_cpmc and EVERY ordered pair of spin-orbitals: calc_overlap_ratio x overlap = overlap of the row-scaled walker "
+         "and update_greens_function = Green's function recomputed from scratch, for all walkers, trials and update constants; "
+         "calc_green_diagonal = diag(calc_full_green); (2) (1/2) sum_sigma B_sigma = exp(-dt U n_up n_dn) on every site occupation from the "
+         "contracts of exp/acosh; (3) the one-body half step exp_h1 against exp(-dt K/2) for any chol and rdm1 - KNOWN FINDING: the "
+         "inherited intermediates contain Cholesky-derived one-body shifts. The per-site sampling structure of propagate() and fast-vs-slow "
+         "equality are not yet covered (see DESIGN).",
+    note=_WF_NOTE + " Real walkers/trials; constraint-active branches outside.")
+CHECKS["C12"] = dict(level="model_checking", design_ref="DESIGN.md 5/C12",
+    technique="exhaustive tracing of the option matrix (symbolic execution over shapes) + symbolic execution with uninterpreted block calls and z3 term equalities",
+    text="(a) every sampler entry point is traced exactly as driver.afqmc calls it (plain, jax.jvp, jax.vjp) for both walker types and "
+         "n_batch 1, 2: a trace-time exception is a call that cannot succeed; (b) with _block_scan / local SR uninterpreted and optimize() "
+         "the identity (converged trial), the energies of plain, _ad, _ad_norot agree and _ad_nosr = _ad_nosr_norot for several block "
+         "structures, for all walkers, weights, e_estimate; (c) _block_scan returns sum w cap(Re E_L)/sum w of the returned walkers with the "
+         "sqrt(2/dt) cap and refreshed overlaps.",
+    note="Trusted: z3, JAX tracing, congruence abstraction. Hardware bit-reproducibility and whole driver runs outside.")
+for k in ("C01","C02","C03","C04","C05","C07","C08","C09","C10","C11","C12","C13","C14","C15","C17","C18","C19","C20"): NA.pop(k, None)
 ENGINES[0]["serves_properties"] = sorted(CHECKS)
